@@ -47,7 +47,7 @@ def run(ctx):
     if ctx.tier == "thorough":
         ctx.leanchecker("Slock.Properties.C20")
     n = 3000 if ctx.tier == "quick" else 40000
-    exe = ctx.build_harness("server")
+    exe = ctx.build_harness("server", only=["zz_verif_queue_test.go", "zz_verif_queue2_test.go"])
     if exe:
         outdir = ctx.run_harness(exe, "queue", n)
         if outdir:
